@@ -51,7 +51,15 @@ JOBS = {
     "c1": dict(root="Conv", samples=conv_sample("c"), fw="attrs", layout="flat", kw={"post_init_converters": True}, fail_at=0),
     "c2": dict(root="Plain", samples=conv_sample("d"), fw="base", layout="flat", kw={"post_init_converters": True}, fail_at=0),
     "c3": dict(root="Dc", samples=conv_sample("e"), fw="dataclasses", layout="nested", kw={"post_init_converters": True, "meta": True}, fail_at=0),
+    # two whole pipelines of different shape whose models carry the SAME registry indexes (1A, 1B, 1C): observed step by step
+    # (build steps are yield points too), so that anything a pipeline memoises process-wide under such an index is found out.
+    # m1 merges `first` and `second`; m2 merges nothing.
+    "m1": dict(root="Mx", samples=[{"first": {"a": 1, "b": 2, "c": 3}, "second": {"a": 4, "b": 5, "c": 6}}], fw="base", layout="flat", kw={},
+               fail_at=0, build=True),
+    "m2": dict(root="My", samples=[{"left": {"p": 1, "q": "s"}, "right": {"x": 1.5, "y": [1]}}], fw="base", layout="flat", kw={},
+               fail_at=0, build=True),
 }
+JOB_NAMES = ("j1", "j2", "j3", "f1", "f2", "r1", "r2", "c1", "c2", "c3", "m1", "m2")
 
 
 def raising_class(base, fail_at):
@@ -189,8 +197,24 @@ class SessionRecorder:
                     rec.emit("Read", t=t, job=job, seen=rec.seen())
                 return orig(self, types_style)
             return to_typing_code
+        def mk_build(what):
+            def make(orig):
+                def build_step(self, *a, **k):
+                    t, job = rec.me()
+                    if t != "?" and JOBS.get(job, {}).get("build"):
+                        if rec.sched:
+                            rec.sched.gate(t)
+                        rec.emit("Build", t=t, job=job, what=what)
+                    return orig(self, *a, **k)
+                return build_step
+            return make
+        from json_to_models.generator import MetadataGenerator
         import contextlib
         st = contextlib.ExitStack()
+        # (generate / process_meta_data are recursive and have no loop over pairs of models: they run between gates)
+        st.enter_context(R.patched(ModelRegistry, "merge_models", mk_build("merge_models")))
+        st.enter_context(R.patched(ModelRegistry, "_models_cmp_fn", mk_build("compare")))
+        st.enter_context(R.patched(ModelRegistry, "_merge", mk_build("merge_group")))
         st.enter_context(R.patched(C, "__enter__", mk_enter))
         st.enter_context(R.patched(C, "__exit__", mk_exit))
         st.enter_context(R.patched(AbsoluteModelRef, "to_typing_code", mk_read))
@@ -242,10 +266,14 @@ def run_program(prog, sched_order=None, solo=None, want_fresh=False, inline=Fals
     return rec.events, (rec.sched.stuck if rec.sched else False)
 
 
+B = {}      # build steps per job (0 for the jobs whose build phase is not observed step by step); filled by measure()
+
+
 def measure():
     """K (context reads) and F (reads before the planned failure) of every job, from solo runs; solo output hashes"""
     K, F, solo = {}, {}, {}
-    for name, job in JOBS.items():
+    B.clear()
+    for name, job in list(JOBS.items()):
         evs, _ = run_program({"t1": [name]}, inline=True)
         reads = [e for e in evs if e["ev"] == "Read"]
         ok_job = dict(job, fail_at=0)
@@ -253,6 +281,7 @@ def measure():
         evs_ok, _ = run_program({"t1": ["_tmp"]}, inline=True)
         del JOBS["_tmp"]
         K[name] = len([e for e in evs_ok if e["ev"] == "Read"])
+        B[name] = len([e for e in evs if e["ev"] == "Build"])
         F[name] = len(reads) if job["fail_at"] else 99
         done = [e for e in evs if e["ev"] == "Done"][0]
         solo[name] = done["out"]
@@ -265,6 +294,7 @@ CONSTANTS
   Jobs <- MJobs
   K <- MK
   F <- MF
+  B <- MB
   ProgSet <- MProgSet
   Shared = %s
   Emit = %s
@@ -279,7 +309,8 @@ CHECK_DEADLOCK FALSE
 
 
 def kcfg(K, F):
-    return "\n".join(["  K%s = %d" % (j, K[j]) for j in ("j1", "j2", "j3", "f1", "f2", "r1", "r2", "c1", "c2", "c3")] + ["  Ff1 = %d" % F["f1"], "  Ff2 = %d" % F["f2"]])
+    return "\n".join(["  K%s = %d" % (j, K[j]) for j in JOB_NAMES] + ["  Ff1 = %d" % F["f1"], "  Ff2 = %d" % F["f2"]]
+                     + ["  Bm1 = %d" % B["m1"], "  Bm2 = %d" % B["m2"]])
 
 
 def mc_session(chk, mode, K, F, emit=True, workers=None):
@@ -299,6 +330,7 @@ TRACE_CONSTS = """  Threads <- TThreads
   Jobs <- TJobs
   K <- TK
   F <- TF
+  B <- TB
   ProgSet <- TProgSet
   Shared = FALSE
 """
@@ -313,7 +345,7 @@ def session_traces(behaviours, K, F, solo, want_fresh, prefix):
         stuck += bool(st)
         begin = {"ev": "Begin", "prog": {t: list(js) for t, js in prog.items()}}
         for e in evs:
-            for k, v in (("t", ""), ("job", ""), ("seen", ""), ("failed", False), ("out", ""), ("solo", ""), ("fresh", ""),
+            for k, v in (("t", ""), ("job", ""), ("seen", ""), ("what", ""), ("failed", False), ("out", ""), ("solo", ""), ("fresh", ""),
                          ("exc", ""), ("planned", False), ("ctxAfter", ""), ("regSame", True)):
                 e.setdefault(k, v)
         tid = "%s%d" % (prefix, i)
